@@ -311,11 +311,17 @@ forwards_to_ivar = forwards_to_method
 def _get_origin_class(obj, cls):
     if cls is not None:
         return cls
+    # the function itself, below what modifiers and the like wrapped it in
+    func = obj
+    for _ in range(10):
+        if hasattr(func, '__code__'):
+            break
+        func = getattr(func, 'func', None) or getattr(func, '__wrapped__', None)
     try:
-        idx = obj.__code__.co_freevars.index('__class__')
-    except ValueError:
+        idx = func.__code__.co_freevars.index('__class__')
+    except (ValueError, AttributeError):
         raise ValueError('Class could not be auto-determined.')
-    return obj.__closure__[idx].cell_contents
+    return func.__closure__[idx].cell_contents
 
 
 @forger_function
